@@ -248,4 +248,112 @@ REG.spec('task_manager.py:TaskManager._pilot_state_cb',
               'forall(lambda j: implies(0 <= j < i_task, c13_step(at(at_head("1", self._tasks), keys_task[j]), at(self._tasks, keys_task[j]), pid)))',
               'forall(lambda j: implies(i_task <= j < len(keys_task), at(self._tasks, keys_task[j]) == at(at_head("1", self._tasks), keys_task[j])))'],
     },
+    serves   = ['C05', 'C13'])
+
+
+# ------------------------------------------------------------------------------
+# C06: TaskManager._task_cb: every registered callback is invoked once with the
+# state that is being announced (the replayed state, not whatever the task has
+# reached meanwhile); an exception in a callback does not escape
+import z3 as _z3
+from pyvc import core as _C
+from pyvc.core import Val as _Val, fresh as _fresh, coerce as _coerce
+
+CbDict = T.Rec('TaskCbDict', cb=T.Any, cb_data=OAny)
+CbMap  = T.Map(T.Str, T.Map(T.Str, T.Map(T.Str, CbDict)))
+CbEvt  = T.Rec('TaskCbEvt', uid=T.Str, state=OStr, with_data=T.Bool)
+
+
+def _user_cb(ex, node, st):
+    """cb(task, state[, cb_data]): an application callback - returns or raises
+    anything; what it was called with is logged (ghost cb_log)"""
+    task  = ex.ev(node.args[0], st)
+    state = ex.ev(node.args[1], st)
+    log = ex.get_var(st, 'cb_log')
+    lty = log.ty
+    n = lty.len(log.term)
+    uid = task.ty.get(task.term, '_uid')
+    ev = CbEvt.mk(uid, _coerce(state, OStr).term, _z3.BoolVal(len(node.args) > 2))
+    new = _Val(lty, lty.mk(_z3.Store(lty.arr(log.term), n, ev), n + 1))
+    e = st.fork(); e.guards = []
+    e.env = dict(st.env); e.env['cb_log'] = new
+    ex.exits.append(('Exception', e, ex.cur_line))
+    st.env['cb_log'] = new
+    return _C.NONE
+_user_cb.mutates = ('cb_log',)
+
+REG.define('n_cbs(cbs, metric, key)',
+    'ite(indom(cbs, metric) and indom(at(cbs, metric), key), len(at(at(cbs, metric), key)), 0)')
+
+REG.spec('task_manager.py:TaskManager._task_cb',
+    params   = dict(task=TaskObj, state=OStr),
+    self     = dict(_callbacks=CbMap),
+    ghost    = dict(cb_log=T.List(CbEvt)),
+    locals   = dict(cb_dicts=T.List(CbDict), uid=T.Str, metric=T.Str),
+    calls    = {'cb': _user_cb},
+    requires = ['indom(self._callbacks, rpc.TASK_STATE)'],
+    modifies = ['cb_log'],
+    raises   = {},
+    no_raise_is_property = True,
+    ensures  = [
+      ('every-registered-callback-is-called-once',
+       'len(cb_log) == len(old(cb_log)) + n_cbs(self._callbacks, rpc.TASK_STATE, "*") + n_cbs(self._callbacks, rpc.TASK_STATE, task._uid)'),
+      ('callbacks-are-told-the-state-being-announced',
+       'forall(lambda k: implies(len(old(cb_log)) <= k < len(cb_log), cb_log[k].uid == task._uid and cb_log[k].state == state))'),
+      ('history-kept', 'forall(lambda k: implies(0 <= k < len(old(cb_log)), cb_log[k] == old(cb_log)[k]))'),
+    ],
+    loops = {'1': ['len(cb_log) == len(old(cb_log)) + i_cb_dict',
+                   'forall(lambda k: implies(len(old(cb_log)) <= k < len(cb_log), cb_log[k].uid == task._uid and cb_log[k].state == state))',
+                   'forall(lambda k: implies(0 <= k < len(old(cb_log)), cb_log[k] == old(cb_log)[k]))']},
+    opts     = dict(merge='scalars'),
+    serves   = ['C06'])
+
+
+# ------------------------------------------------------------------------------
+# C13: TaskManager.add_pilots: the manager learns of the end of *every* pilot it is
+# given, i.e. its state callback is registered with each of them
+PilotDoc = T.Rec('PilotDoc', uid=T.Str)
+RegEvt   = T.Rec('CbRegEvt', uid=T.Str, cb=T.Str)
+
+
+def _as_dict(ex, node, st):
+    p = ex.ev(node.func.value, st)
+    return _Val(PilotDoc, PilotDoc.mk(p.ty.get(p.term, '_uid')))
+_as_dict.mutates = ()
+
+def _register_cb(ex, node, st):
+    p = ex.ev(node.func.value, st)
+    cb = node.args[0]
+    import ast
+    name = ast.unparse(cb)
+    log = ex.get_var(st, 'registered')
+    lty = log.ty
+    n = lty.len(log.term)
+    ev = RegEvt.mk(p.ty.get(p.term, '_uid'), _C.str_lit(name))
+    st.env['registered'] = _Val(lty, lty.mk(_z3.Store(lty.arr(log.term), n, ev), n + 1))
+    return _C.NONE
+_register_cb.mutates = ('registered',)
+
+REG.spec('task_manager.py:TaskManager.add_pilots',
+    params   = dict(pilots=T.List(PilotObj)),
+    self     = dict(_pilots=T.Map(T.Str, PilotObj), uid=T.Str),
+    ghost    = dict(registered=T.List(RegEvt)),
+    locals   = dict(pilot_docs=T.List(PilotDoc), pilot_dict=PilotDoc, pid=T.Str),
+    calls    = {'pilot.as_dict': _as_dict, 'pilot.register_callback': _register_cb},
+    effects  = {'pilot.attach_tmgr': ignore_call, 'self.publish': ignore_call},
+    modifies = ['self._pilots', 'registered'],
+    raises   = {'ValueError': 'True'},
+    raises_weak = ['ValueError'],
+    frame_on_raise = False,
+    ensures  = [
+      ('the-manager-subscribes-to-the-state-of-every-pilot-it-is-given',
+       'len(registered) == len(old(registered)) + len(pilots) and forall(lambda k: implies(0 <= k < len(pilots), '
+       'registered[len(old(registered)) + k].uid == pilots[k]._uid and registered[len(old(registered)) + k].cb == "self._pilot_state_cb"))'),
+      ('every-pilot-is-kept', 'forall(lambda k: implies(0 <= k < len(pilots), indom(self._pilots, pilots[k]._uid)))'),
+    ],
+    loops = {'1': ['len(registered) == len(old(registered)) + i_pilot', 'len(pilot_docs) == i_pilot',
+                   'forall(lambda k: implies(0 <= k < i_pilot, registered[len(old(registered)) + k].uid == pilots[k]._uid and '
+                   'registered[len(old(registered)) + k].cb == "self._pilot_state_cb" and indom(self._pilots, pilots[k]._uid)))',
+                   'forall(lambda u: implies(indom(old(self._pilots), u), indom(self._pilots, u)), Str)']},
+    opts     = dict(merge='scalars'),
     serves   = ['C13'])
